@@ -32,7 +32,15 @@ Part "config" (E1): Theme.config -> Theme.from_file over a C06-style universe of
     the definition-string route, with and without inherited defaults; thorough adds all
     pairs U x U.
 
-Measured on this sandbox (16 workers): see describe(); quick ~10 s, thorough ~4 min.
+Measured on this sandbox (CPU seconds summed over workers; the machine was shared while
+measuring, on 16 idle cores divide by ~14):
+    unchanged tree (use_theme(inherit=False) defect prunes a quarter of the pushes):
+        quick     193,447 states  419,300 transitions   8,243 config themes      ~80 s CPU
+        thorough  193,447 states  656,051 transitions   1,069,143 config themes  ~600 s CPU
+    with ThemeContext.__enter__ passing inherit on:
+        quick     622,799 states  1,000,141 transitions (592,944 states left at the depth cap,
+                  space of height <= 4 closed)                                   ~225 s CPU
+        thorough  622,799 states  1,889,557 transitions, closed at height <= 5   ~1200 s CPU
 """
 import collections
 import io
@@ -497,6 +505,9 @@ def _bfs(sh, tier, res):
                 res.violate("sweep/lookup-mismatch", dict(case0, history=[]), "; ".join(bad[:5]))
                 mute = True
     else:
+        if cur != ref.expected():
+            res.count("subtrees_not_expanded_after_violation")       # reported by the root shard
+            return
         for ev in root:
             ref2 = ref.copy()
             ref2.apply(ev)
